@@ -4,15 +4,23 @@ Stream `reuse`: abstract projects in name-reuse mode (harness/c07_gen.py) are
 rendered to source files, parsed and correlated by the real FORD in-process
 (`Project(settings)`, `Project.correlate()`); for every reference slot the
 object FORD stored is mapped back to the abstract entity (or `text`).
-  (a) correspondence: equal, slot by slot, to the Lean model `corrProject` run on
-      the same abstract project; the four variants (shared/copied host tables x
-      host-over-local/local-over-host procedures) are all run and the one that
+  (a) correspondence: equal, slot by slot, to the Lean model `corrProjectS` (+ `genericRes`) run
+      on the same abstract project; all variants (shared/copied host tables x
+      host-over-local/local-over-host procedures x ...) are run and the one that
       agrees everywhere is the variant the working tree implements;
   (b) property oracle: equal to the entity designated by Fortran scoping, computed
       by `c07_gen.oracle` (independent of the model), which is itself cross-checked
       with the Lean specification `specProject`.
 Failing slots are classified into the known defect classes (known_findings/C07.json)
 by decidable predicates on the abstract project.
+
+Further streams: re-export chains, renames on USE, BLOCK constructs, type-bound procedures named
+like procedures of the scope (specific / deferred / generic bindings, inheritance and overriding),
+dummy procedures declared by interface bodies, submodules (host association from the parent,
+separate module procedures, equal submodule names under different modules).  The model variants
+have six switches (see VARIANTS); all variants of a case go to the Lean driver in one request
+(`c07.multi`).  Two traces of the implementation are inputs of the model: the order in which the
+derived types are correlated and the order of the project's list of submodules.
 """
 from __future__ import annotations
 
@@ -25,13 +33,25 @@ from . import c07_gen as G
 from .common import Driver, Report, lean_prove
 
 PROP = "C07"
-# alias, hostOverLocal, blockUse ; "000" = repaired, "111" = as found.  blockUse = a USE statement
-# inside a BLOCK construct is filed in the enclosing code unit
-VARIANTS = ["000", "110", "100", "010", "001", "111", "101", "011"]
+# alias, hostOverLocal, blockUse, sharedSpecifics, ancOverLocal, parentByName ; "000000" = repaired,
+# "111111" = as found.
+#   blockUse = a USE statement inside a BLOCK construct is filed in the enclosing code unit
+#   sharedSpecifics = the copy of a generic binding an extension inherits shares the list of its
+#                     specifics with the parent type's generic binding
+#   ancOverLocal = the tables of the parent (ancestor module / parent submodule) overwrite the local
+#                  declarations of a submodule
+#   parentByName = the parent submodule is looked up by its name alone (whatever its ancestor module)
+VARIANTS = [a + b + c + d + e for a in ("00", "11", "10", "01") for b in "01" for c in "01" for d in "01" for e in "01"]
 _VN = {"00": "repaired (copied host tables, local over host)", "11": "asIs (shared host tables, host over local)",
        "10": "shared host tables, local over host", "01": "copied host tables, host over local"}
 VARIANT_NAME = {v: _VN[v[:2]] + ("; USE inside a BLOCK is filed in the enclosing unit" if v[2] == "1"
-                                 else "; USE inside a BLOCK imports nothing into the enclosing unit") for v in VARIANTS}
+                                 else "; USE inside a BLOCK imports nothing into the enclosing unit")
+                + ("; inherited generic bindings share the parent's list of specifics" if v[3] == "1"
+                   else "; inherited generic bindings have their own list of specifics")
+                + ("; a submodule's local declarations are overwritten by its parent's" if v[4] == "1"
+                   else "; a submodule's local declarations shadow its parent's")
+                + ("; parent submodule found by name alone" if v[5] == "1"
+                   else "; parent submodule found by ancestor module and name") for v in VARIANTS}
 UNOBS = "unobserved"
 
 
@@ -56,8 +76,15 @@ def build_ford(ford, root: Path, files: dict):
     sf.namelist = sf.NameSelector()
     settings = ProjectSettings(src_dir=[src], preprocess=False, warn=False,
                                display=["public", "private", "protected"])
-    with common.quiet():
-        return Project(settings)
+    # the HTML rendering of the source text (pygments) has no part in name resolution: switched off
+    # in the harness process (a third of the parse time)
+    hl = sf.highlight
+    sf.highlight = lambda *a, **k: ""
+    try:
+        with common.quiet():
+            return Project(settings)
+    finally:
+        sf.highlight = hl
 
 
 def byname(lst, name):
@@ -76,6 +103,8 @@ def register(F: G.Flat, project):
         top[("module", m.name.lower())] = m
     for p in project.programs:
         top[("program", p.name.lower())] = p
+    for sm in project.submodules:
+        top[("submodule", sm.name.lower(), str(getattr(sm.ancestor_module, "name", sm.ancestor_module)).lower())] = sm
     for p in project.procedures:
         top[(p.obj if p.obj in ("function", "subroutine") else p.proctype.lower(), p.name.lower())] = p
     objs = {}
@@ -87,27 +116,52 @@ def register(F: G.Flat, project):
             continue
         if rec["parent"] is None:
             key = rec["path"][0]
+            if node["kind"] == "submodule":
+                key = ("submodule", key[1], node["ancestor"].lower())
+                if key not in top:
+                    raise KeyError(f"submodule {key[1]} of {key[2]}")
             obj = top.get(key)
             if obj is None:
                 # external procedures: obj == 'proc'
                 obj = next(p for p in project.procedures if p.name.lower() == key[1])
         else:
             par = objs[rec["parent"]]
-            obj = byname(par.functions if node["kind"] == "function" else par.subroutines, node["name"])
+            if node.get("mp") == "procedure":
+                obj = byname(par.modprocedures, node["name"])
+            else:
+                obj = byname(par.functions if node["kind"] == "function" else par.subroutines, node["name"])
         objs[sidx] = obj
         ent_of[id(obj)] = rec["ent"]
         for n, e in rec["local"]["t"].items():
             ent_of[id(byname(obj.types, n))] = e
         for n, e in rec["local"]["a"].items():
             ent_of[id(byname(obj.absinterfaces, n))] = e
+        dummy_names = [d["name"].lower() for d in node.get("dummies", [])]
         for n, e in rec["local"]["p"].items():
             cls = F.ents[e]["cls"]
             if cls == "proc":
                 continue  # registered with its own scope
+            if cls == "dummy":
+                # the interface body has become the argument (`FortranProcedure._cleanup`); the
+                # interface object that stays in `all_procs` is mapped through its `.procedure`
+                a = obj.args[len(node["args"]) + dummy_names.index(n)]
+                if a.name.lower() != n or not hasattr(a, "all_procs"):
+                    raise KeyError(f"dummy procedure {n} is not the argument object")
+                ent_of[id(a)] = e
+                continue
+            if cls == "ifbody":
+                o = next(r for i in obj.interfaces if getattr(i, "generic", False) for r in i.routines if r.name.lower() == n)
+                ent_of[id(o)] = e
+                continue
             want_generic = cls == "generic"
             o = next(i for i in obj.interfaces if i.name.lower() == n and bool(getattr(i, "generic", False)) == want_generic)
             ent_of[id(o)] = e
         generics = [i for i in obj.interfaces if getattr(i, "generic", False)]
+        for tr in F.types:
+            if tr["scope"] == sidx:
+                t = obj.types[tr["ti"]]
+                for n, e in tr["own"].items():
+                    ent_of[id(byname(t.boundprocs, n))] = e
         for i in rec["slots"]:
             g = F.slots[i]["get"]
             k = g[0]
@@ -123,6 +177,21 @@ def register(F: G.Flat, project):
             elif k == "defer":
                 b = byname(obj.types[g[1]].boundprocs, g[2])
                 readers[i] = (lambda b=b: b.proto)
+            elif k == "ancestor":
+                readers[i] = (lambda o=obj: o.ancestor_module)
+            elif k == "parentsub":
+                readers[i] = (lambda o=obj: o.parent_submodule)
+            elif k == "mpair":
+                kn = node["kids"][g[1]]
+                ko = byname(obj.modprocedures, kn["name"]) if kn.get("mp") == "procedure" else \
+                    byname(obj.functions if kn["kind"] == "function" else obj.subroutines, kn["name"])
+                readers[i] = (lambda ko=ko: ko.module)
+            elif k == "defbind":
+                b = byname(obj.types[g[1]].boundprocs, g[2])
+                readers[i] = (lambda b=b: b.bindings[0])
+            elif k == "gspec":
+                b = byname(obj.types[g[1]].boundprocs, g[2])
+                readers[i] = (lambda b=b, j=g[3]: b.bindings[j])
             elif k == "final":
                 f = obj.types[g[1]].finalprocs[g[2]]
                 readers[i] = (lambda f=f: f.procedure)
@@ -142,6 +211,8 @@ def register(F: G.Flat, project):
                 v = obj.retvar
                 readers[i] = (lambda v=v: v.proto[0])
         _register_blocks(F, sidx, obj, ent_of, readers, leaked)
+    # the order of the project's list of submodules (the parent submodule is searched in it)
+    F.sub_order = [ent_of[id(sm)] for sm in project.submodules if id(sm) in ent_of]
     return ent_of, readers, objs, leaked
 
 
@@ -206,12 +277,37 @@ def _register_blocks(F, sidx, obj, ent_of, readers, leaked):
 def observe(F: G.Flat, project):
     """Run correlate; slot -> ent | None (text) | ('?', description); or the string 'raise'."""
     alias_obs = []
+    F.type_order = None
+    F.sub_order = None
     try:
         ent_of, readers, objs, leaked = register(F, project)
     except (StopIteration, KeyError, IndexError, AttributeError) as e:
         # a unit / entity of the generated (valid) project is missing from FORD's object tree:
         # the file was not parsed, or a declaration was filed somewhere else
         return ("crash", f"object tree differs from the project ({type(e).__name__}: {e})"), alias_obs, set()
+    # the order in which the derived types are correlated (an input of the model of the generic
+    # bindings: with shared lists of specifics the last extension to be correlated wins)
+    import ford.sourceform as sf
+    order = []
+    orig = sf.FortranType.correlate
+
+    def logged(self, project_):
+        order.append(id(self))
+        return orig(self, project_)
+
+    import ford.fortran_project as fp
+    warns = (sf.warn, fp.warn)
+    sf.FortranType.correlate = logged
+    sf.warn = fp.warn = lambda *a, **k: None  # (formatting the warnings costs more than the correlation)
+    try:
+        return _observe(F, project, ent_of, readers, objs, leaked, alias_obs)
+    finally:
+        sf.FortranType.correlate = orig
+        sf.warn, fp.warn = warns
+        F.type_order = [ent_of[x] for x in order if x in ent_of]
+
+
+def _observe(F, project, ent_of, readers, objs, leaked, alias_obs):
     try:
         with common.quiet():
             project.correlate()
@@ -229,10 +325,14 @@ def observe(F: G.Flat, project):
     obs = {}
     for i, rd in readers.items():
         o = rd()
-        if o is None or isinstance(o, str):
+        if o is None or isinstance(o, (str, bool)):
             obs[i] = None
         elif id(o) in ent_of:
             obs[i] = ent_of[id(o)]
+        elif type(o).__name__ == "FortranModuleProcedureInterface" and id(getattr(o, "procedure", None)) in ent_of \
+                and F.ents[ent_of[id(o.procedure)]]["cls"] == "dummy":
+            # the interface object of a dummy procedure (its body is the argument object)
+            obs[i] = ent_of[id(o.procedure)]
         else:
             obs[i] = ("?", f"{type(o).__name__}:{getattr(o, 'name', '')}")
     # direct look at the aliasing the model threads through the traversal
@@ -259,6 +359,21 @@ def parse_res(fields):
             continue
         k, v = f.split("=")
         out[int(k)] = None if v == "-" else int(v)
+    return out
+
+
+def split_multi(fields):
+    """answer of `c07.multi`: ok (# <variant | spec> <field>*)*  ->  {name: fields}"""
+    if not fields or fields[0] != "ok":
+        raise common.Infra(f"model answered {fields[:2]}")
+    out = {}
+    cur = None
+    it = iter(fields[1:])
+    for f in it:
+        if f == "#":
+            cur = out.setdefault(next(it), [])
+        else:
+            cur.append(f)
     return out
 
 
@@ -291,6 +406,9 @@ def run(tier: str, seed: int, replay: str | None = None) -> int:
     n_chain = 400 if tier == "quick" else 3000
     n_ren = 400 if tier == "quick" else 3000
     n_blk = 350 if tier == "quick" else 3000
+    n_bnd = 300 if tier == "quick" else 3000
+    n_dum = 300 if tier == "quick" else 3000
+    n_sub = 300 if tier == "quick" else 3000
     cases = []
     if replay:
         data = json.loads(Path(replay).read_text())
@@ -325,22 +443,53 @@ def run(tier: str, seed: int, replay: str | None = None) -> int:
         P = G.gen_block_project(rng)
         cases.append((P, G.render_project(P, rng)))
 
+    for k in range(n_bnd):
+        # type-bound procedures (specific, deferred, generic; inherited and overridden) named like
+        # procedures of the scope
+        P = G.gen_bound_project(rng)
+        cases.append((P, G.render_project(P, rng)))
+
+    for k in range(n_dum):
+        # dummy procedures declared by interface bodies next to same-named host procedures
+        P = G.gen_dummy_project(rng)
+        cases.append((P, G.render_project(P, rng)))
+
+    for k in range(n_sub):
+        # submodules: host association from the parent, separate module procedures, same-named
+        # submodules under different modules
+        P = G.gen_sub_project(rng)
+        files = G.render_project(P, rng)
+        if rng.random() < 0.4:
+            # one unit per file, any file order: the project's list of submodules is in file order
+            order = list(range(len(P["units"])))
+            rng.shuffle(order)
+            files = {f"h{j}.f90": "\n".join(_render_units({"units": [P["units"][u]]})) + "\n" for j, u in enumerate(order)}
+        cases.append((P, files))
+
     flats = [G.Flat(P) for P, _ in cases]
+    # the implementation first: the order in which FORD correlates the derived types is an input of
+    # the model of the generic bindings
+    observed = []
+    with common.scratch_dir() as d:
+        for (P, files), F in zip(cases, flats):
+            project = build_ford(ford, d, files)
+            observed.append(observe(F, project))
+    # one request per case: the canonical variants of the case (a project without a USE inside a BLOCK
+    # is the same input for both values of the third switch, one without a generic binding in a type
+    # hierarchy for both values of the fourth, one without submodules for the last two) and the
+    # specification
     reqs = []
-    req_at = []  # per case: variant -> index of its request (a project without a USE inside a BLOCK
-    #              is the same input for both values of the third switch)
+    canon_of = []
     for F in flats:
         has_block_use = any(rec.get("block") and rec["node"]["uses"] for rec in F.scopes)
-        at = {}
-        for v in VARIANTS:
-            if v[2] == "1" and not has_block_use:
-                at[v] = at[v[:2] + "0"]
-                continue
-            at[v] = len(reqs)
-            reqs.append(["c07.run", v] + F.tokens)
-        at["spec"] = len(reqs)
-        reqs.append(["c07.spec"] + F.tokens)
-        req_at.append(at)
+        has_inherit = any(r["gslots"] for r in F.types) and any(r["ext"] is not None for r in F.types)
+        has_sub = bool(F.subs)
+        toks = F.tokens + ["|"] + F.type_tokens(F.type_order) + ["|"] + F.sub_tokens(F.sub_order)
+        cn = {v: v[:2] + (v[2] if has_block_use else "0") + (v[3] if has_inherit else "0") + (v[4:] if has_sub else "00")
+              for v in VARIANTS}
+        vs = sorted(set(cn.values()))
+        canon_of.append(cn)
+        reqs.append(["c07.multi", str(len(vs))] + vs + toks)
     answers = drv.batch(reqs)
 
     mism = {v: 0 for v in VARIANTS}
@@ -358,37 +507,51 @@ def run(tier: str, seed: int, replay: str | None = None) -> int:
                   "block_local_name_also_visible_outside": 0, "block_local_name_referenced_outside": 0,
                   "block_local_name_referenced_outside_expect_text": 0,
                   "block_local_name_referenced_outside_expect_other_entity": 0,
-                  "block_used_name_referenced_outside": 0, "block_use_distinguishing_case": 0}
+                  "block_used_name_referenced_outside": 0, "block_use_distinguishing_case": 0,
+                  "shared_specifics_distinguishing_case": 0, "submodule_local_distinguishing_case": 0,
+                  "submodule_parent_distinguishing_case": 0, "submodules": 0, "submodules_of_submodules": 0,
+                  "submodule_name_under_two_modules": 0, "separate_module_procedures": 0,
+                  "submodule_local_name_also_in_ancestor": 0, "submodule_local_name_also_in_ancestor_referenced": 0,
+                  "binding_name_is_visible_procedure_name": 0, "deferred_binding_name_is_visible_procedure_name": 0,
+                  "binding_without_target": 0, "generic_bindings": 0, "generic_specific_inherited": 0,
+                  "generic_specific_overridden_in_extension": 0, "generic_specific_is_visible_procedure_name": 0,
+                  "dummy_procedures": 0, "dummy_procedure_shadows_host_name": 0, "dummy_procedure_name_referenced": 0,
+                  "dummy_procedure_name_referenced_from_internal": 0, "generic_interface_bodies": 0,
+                  "generic_interface_body_name_referenced": 0}
     distinct = set()
     samples = []
     spec_diff = 0
     fails = []
     pending = []
-    with common.scratch_dir() as d:
+    if True:
         for k, ((P, files), F) in enumerate(zip(cases, flats)):
-            parsed = {}
-            for v in VARIANTS + ["spec"]:
-                if req_at[k][v] not in parsed:
-                    parsed[req_at[k][v]] = parse_res(answers[req_at[k][v]])
-            model = {v: parsed[req_at[k][v]] for v in VARIANTS}
-            spec = parsed[req_at[k]["spec"]]
+            raw = split_multi(answers[k])
+            parsed = {name: parse_res(["ok"] + fields) for name, fields in raw.items()}
+            model = {v: parsed[canon_of[k][v]] for v in VARIANTS}
+            spec = parsed["spec"]
             exp, where, frames = G.oracle(F)
-            project = build_ford(ford, d, files)
-            obs, alias_obs, leaked = observe(F, project)
+            obs, alias_obs, leaked = observed[k]
             hist["cases"] += 1
             hist["alias_pairs"] += len(alias_obs)
             hist["alias_pairs_shared"] += sum(alias_obs)
             _reuse_stats(F, frames, reuse_hist)
             _rename_stats(F, exp, reuse_hist)
             _block_stats(F, frames, exp, reuse_hist)
+            _periphery_stats(F, frames, exp, reuse_hist)
 
-            def _key(m):
-                return json.dumps(sorted((str(a), sorted(b) if isinstance(b, set) else b) for a, b in m.items()))
+            def _key(v):
+                return raw[canon_of[k][v]]
 
-            if len({_key(model[v]) for v in VARIANTS}) > 1:
+            if len({tuple(f) for n_, f in raw.items() if n_ != "spec"}) > 1:
                 reuse_hist["variants_distinguishing_case"] += 1
-            if _key(model["000"]) != _key(model["001"]):
+            if _key("000000") != _key("001000"):
                 reuse_hist["block_use_distinguishing_case"] += 1
+            if _key("000000") != _key("000100"):
+                reuse_hist["shared_specifics_distinguishing_case"] += 1
+            if _key("000000") != _key("000010"):
+                reuse_hist["submodule_local_distinguishing_case"] += 1
+            if _key("000000") != _key("000001"):
+                reuse_hist["submodule_parent_distinguishing_case"] += 1
             # Lean spec vs python oracle (both independent of the mechanism)
             for i, e in exp.items():
                 if F.slots[i].get("optional"):
@@ -464,7 +627,7 @@ def run(tier: str, seed: int, replay: str | None = None) -> int:
                     hist["oracle_skipped_not_fortran"] += 1
                     continue
                 hist["oracle_checked"] += 1
-                if o != e:
+                if F.canon(o) != F.canon(e):  # (an implementation and its interface are one procedure)
                     hist["oracle_fail"] += 1
                     pending.append((k, i, e, o, {v: model[v].get(i, "missing") for v in VARIANTS}, (frames, where)))
             if len(samples) < 2 and len(F.slots) >= 4:
@@ -483,13 +646,25 @@ def run(tier: str, seed: int, replay: str | None = None) -> int:
         # a variant that is not excluded by any case is only decided if some case distinguishes them
         if len(agreeing) > 1 and reuse_hist["variants_distinguishing_case"] == 0:
             rep.tie_broken("correspondence reuse: no generated case distinguishes the model variants")
-        if variant[:2] + "0" in agreeing and variant[:2] + "1" in agreeing and not replay:
+        def undecided(pos):
+            return variant[:pos] + "0" + variant[pos + 1:] in agreeing and variant[:pos] + "1" + variant[pos + 1:] in agreeing
+
+        if undecided(2) and not replay:
             rep.tie_broken("correspondence reuse: no generated case decides whether a USE statement inside a BLOCK "
                            "is filed in the enclosing unit")
+        if undecided(3) and not replay:
+            rep.tie_broken("correspondence reuse: no generated case decides whether an inherited generic binding "
+                           "shares the list of its specifics with the parent type's")
+        if undecided(4) and not replay:
+            rep.tie_broken("correspondence reuse: no generated case decides whether the parent's tables overwrite "
+                           "the local declarations of a submodule")
+        if undecided(5) and not replay:
+            rep.tie_broken("correspondence reuse: no generated case decides whether the parent submodule is looked "
+                           "up by its name alone")
         try:
             from translate import c07 as T
             tv = T.code_variant()
-            tv = None if tv is None else tv + T.block_variant()
+            tv = None if tv is None else tv + T.block_variant() + T.generic_variant() + T.sub_variant()
             if tv is not None and tv != variant and len(agreeing) == 1:
                 rep.tie_broken(f"translator reads variant {tv} from the source of FortranCodeUnit.correlate, "
                                f"differential execution decides {variant}")
@@ -501,7 +676,9 @@ def run(tier: str, seed: int, replay: str | None = None) -> int:
     # failure is the one the defect switches of the model reproduce.  Everything else is new.
     vref = variant if variant is not None else min(VARIANTS, key=lambda v: mism[v])
     for k, i, e, o, mv, (frames, where) in pending:
-        cls = G.classify(flats[k], frames, where, i, o if not isinstance(o, tuple) else None, block_use=(vref[2] == "1"))
+        cls = G.classify(flats[k], frames, where, i, o if not isinstance(o, tuple) else None, block_use=(vref[2] == "1"),
+                         shared=(vref[3] == "1"), sub_local=(vref[4] == "1"), sub_parent=(vref[5] == "1"),
+                         alias=(vref[0] == "1"), host_over_local=(vref[1] == "1"))
         if cls is not None and mv[vref] != o:
             cls = None
         if cls == "C07-shared-type-tables-leak" and vref[0] == "0":
@@ -533,14 +710,21 @@ def run(tier: str, seed: int, replay: str | None = None) -> int:
         chain_cases=n_chain,
         rename_cases=n_ren,
         block_cases=n_blk,
+        bound_procedure_cases=n_bnd,
+        dummy_procedure_cases=n_dum,
+        submodule_cases=n_sub,
     )
     rep.assumptions += [
-        "implicit typing, IMPORT statements, submodules, common blocks and namelists are outside the abstract projects",
+        "implicit typing, IMPORT statements, common blocks and namelists are outside the abstract projects; submodules: depth <= 2, a module does not implement its own module procedure interfaces, every implementation is a subroutine",
         "BLOCK constructs: derived types without CONTAINS part, abstract interfaces, interface blocks, variables, USE statements "
         "and nested BLOCKs; FORD has no object for a BLOCK and records no reference inside it - such references are evaluated "
         "(oracle: the BLOCK's own frame first) only when the implementation under test does record them",
         "all abstract modules have default accessibility PUBLIC (accessibility is C04/C06)",
-        "interface bodies declare nothing and are not scopes of the abstract project",
+        "interface bodies are not scopes of the abstract project (they have no declarations of their own); an interface body "
+        "inside a generic interface and one that declares a dummy procedure are local procedure-like entities of the scope",
+        "type-bound procedures: all bindings are public and NOPASS; generic bindings have names that no other binding has "
+        "(a generic binding is never overridden or extended); the order in which FORD correlates the derived types is "
+        "observed and handed to the model of the generic bindings",
         "the threaded tables of the model stand for the single dict object FORD shares between a unit and its nested units; "
         "the identity `child.all_types is parent.all_types` is observed directly (alias_pairs_shared)",
     ]
@@ -598,6 +782,97 @@ def _block_stats(F, frames, exp, h):
                     h["block_local_name_referenced_outside_expect_other_entity"] += 1
             if (ns, n) in used or (ns == "p" and ("a", n) in used):
                 h["block_used_name_referenced_outside"] += 1
+
+
+def _periphery_stats(F, frames, exp, h):
+    """how often binding names meet procedure names, generic bindings meet inheritance, dummy
+    procedures and interface bodies of generic interfaces meet same-named entities"""
+    def visible_proc(sidx, n):
+        s = sidx
+        while s is not None:
+            if n in frames[s]["p"] or n in frames[s]["a"]:
+                return True
+            s = F.scopes[s]["parent"]
+        return False
+
+    parent = getattr(F, "type_parent", {})
+    for r in F.types:
+        t = F.scopes[r["scope"]]["node"]["types"][r["ti"]]
+        for b in t["binds"]:
+            if b["target"] is None:
+                h["binding_without_target"] += 1
+            elif visible_proc(r["scope"], b["name"].lower()):
+                h["binding_name_is_visible_procedure_name"] += 1
+        for b in t["deferred"]:
+            if visible_proc(r["scope"], b["name"].lower()):
+                h["deferred_binding_name_is_visible_procedure_name"] += 1
+        h["generic_bindings"] += len(t.get("gbinds", []))
+        for i in r["gslots"]:
+            n = F.slots[i]["name"].lower()
+            if exp[i] not in (None, G.SKIP) and exp[i] != r["own"].get(n):
+                h["generic_specific_inherited"] += 1
+            if visible_proc(r["scope"], n):
+                h["generic_specific_is_visible_procedure_name"] += 1
+            for d in F.types:
+                if d is not r and n in d["own"]:
+                    a = parent.get(d["ent"])
+                    seen = set()
+                    while a is not None and a not in seen:
+                        seen.add(a)
+                        if a == r["ent"]:
+                            h["generic_specific_overridden_in_extension"] += 1
+                            break
+                        a = parent.get(a)
+    for x in F.subs:
+        h["submodules"] += 1
+        if x["parent"]:
+            h["submodules_of_submodules"] += 1
+        nm = F.scopes[x["scope"]]["node"]["name"].lower()
+        if len({y["anc"] for y in F.subs if F.scopes[y["scope"]]["node"]["name"].lower() == nm}) >= 2:
+            h["submodule_name_under_two_modules"] += 1
+        h["separate_module_procedures"] += len(x["pairs"])
+        hosts = list(F.chain(x["scope"]))[1:]
+        inside = set()
+        stack = [x["scope"]]
+        while stack:
+            y = stack.pop()
+            inside.add(y)
+            stack += F.scopes[y]["kids"]
+        for ns in "tpa":
+            for n in F.scopes[x["scope"]]["local"][ns]:
+                spaces = ["t"] if ns == "t" else ["p", "a"]
+                if any(n in frames[k][q] for k in hosts for q in spaces):
+                    h["submodule_local_name_also_in_ancestor"] += 1
+                    for i, sl in enumerate(F.slots):
+                        if sl["scope"] in inside and sl["name"].lower() == n and (sl["kind"] == "ty") == (ns == "t") \
+                                and sl["kind"] in ("ty", "pr", "pa"):
+                            h["submodule_local_name_also_in_ancestor_referenced"] += 1
+    for sidx, rec in enumerate(F.scopes):
+        if rec.get("block"):
+            continue
+        node = rec["node"]
+        below = set()
+        stack = [sidx]
+        while stack:
+            x = stack.pop()
+            below.add(x)
+            stack += F.scopes[x]["kids"]
+        for d in node.get("dummies", []):
+            n = d["name"].lower()
+            h["dummy_procedures"] += 1
+            if rec["parent"] is not None and visible_proc(rec["parent"], n):
+                h["dummy_procedure_shadows_host_name"] += 1
+            for i, sl in enumerate(F.slots):
+                if sl["scope"] in below and sl["kind"] == "pa" and sl["name"].lower() == n and exp[i] == rec["local"]["p"][n]:
+                    h["dummy_procedure_name_referenced"] += 1
+                    if sl["scope"] != sidx:
+                        h["dummy_procedure_name_referenced_from_internal"] += 1
+        for g in node.get("generics", []):
+            for b in g.get("bodies", []):
+                h["generic_interface_bodies"] += 1
+                for i, sl in enumerate(F.slots):
+                    if sl["scope"] in below and sl["kind"] in ("pa", "pr") and exp[i] == rec["local"]["p"][b.lower()]:
+                        h["generic_interface_body_name_referenced"] += 1
 
 
 def _rename_stats(F, exp, h):
